@@ -1,10 +1,4 @@
-"""What MANIFEST.json claims per property (bin/mkmanifest turns this into MANIFEST.json)."""
-HOOK_COMMITS = []
-NOT_YET = {}
-CLAIMS = {
- "C04": {
-  "text": "TLC exhaustively checks implementation-shaped models of both scanners (ScannerImm/ScannerBuf: every stream over {a,CR,LF} up to the bound, every chunking, stall and failure position, buffer sizes 1..4) for exact splitting, single error report, no read after the end, buffer-lifetime (no write under a handed-out view), refinement of the abstract Scanner and termination; every complete model behaviour is replayed on the real scanners (retained slices re-read at the end) and seeded random real executions (incl. the 128 KiB production wiring) are validated by TLC against the abstract spec.",
-  "note": "Bounded: exhaustive only within the stated stream length/alphabet/buffer sizes; beyond that seeded random traces. Trusted: Go runtime, the scripted io.Reader of the harness, TLC.",
-  "technique": "TLA+ refinement model checking (TLC) + model-behaviour replay + trace validation",
- },
-}
+"""Manifest-level facts kept by hand (per-property claims live in lib/props/cNN.py as CLAIM)."""
+HOOK_COMMITS = []     # commits in /repo that add verif-tagged hooks
+HOLD_BACK = set()     # property ids whose check exists but is not claimed yet (still being built)
+NOT_YET = {}          # property id -> reason it is not claimed
